@@ -308,3 +308,92 @@ func VerifC09_MySQLSearchable() {
 		verif.Assert(len(index) > 0 && len(index) <= len(stored) && verif.Eq(index, stored[:len(index)]), "search-index-is-the-stored-prefix")
 	}
 }
+
+// VerifC19_MySQLTypedRowPolicies: a text-protocol row with two typed protected columns written for different clients.
+// Every column follows its own outcome: the one the reader can open comes back as the declared type, the other one
+// gets exactly its failure policy (here the configured default), independently of its neighbour and of their order.
+func VerifC19_MySQLTypedRowPolicies() {
+	store := verifKeys()
+	crypto.InitRegistry(nil)
+	env := config.CryptoEnvelopeTypeAcraBlock
+	def := "-1"
+	schema, err := config.VerifNewStore(true, "t", []string{"id", "name", "age"},
+		&config.BasicColumnEncryptionSetting{Name: "name", UsedClientID: "A", CryptoEnvelope: &env, DataType: "str", ResponseOnFail: "default_value", DefaultDataValue: strPtr("n/a")},
+		&config.BasicColumnEncryptionSetting{Name: "age", UsedClientID: "B", CryptoEnvelope: &env, DataType: "int32", ResponseOnFail: "default_value", DefaultDataValue: &def})
+	if err != nil {
+		panic("schema: " + err.Error())
+	}
+	mk := func(client string) (*Handler, context.Context, *sqlparser.Parser) {
+		parser := sqlparser.New(sqlparser.ModeStrict)
+		setting := base.NewProxySetting(parser, schema, store, nil, nil, nil)
+		factory, err := NewProxyFactory(setting, store, nil)
+		if err != nil {
+			panic("factory")
+		}
+		ctx := base.SetAccessContextToContext(context.Background(), base.NewAccessContext(base.WithClientID([]byte(client))))
+		sess := &verifSession{data: map[string]interface{}{}}
+		ctx = base.SetClientSessionToContext(ctx, sess)
+		sess.ctx = ctx
+		p, err := factory.New([]byte(client), sess)
+		if err != nil {
+			panic("proxy: " + err.Error())
+		}
+		return p.(*Handler), ctx, parser
+	}
+	w, wctx, parser := mk("A")
+	lit := verifMarker("name", 3)
+	obj, changed, err := w.queryObserverManager.OnQuery(wctx, emysql.NewOnQueryObjectFromQuery(verifFill("insert into t (id, name, age) values (1, '%s', 42)", lit), parser))
+	verif.Assert(err == nil && changed, "write-rewritten")
+	if err != nil || !changed {
+		return
+	}
+	fwd := obj.Query()
+	// two hex literals: name, then age
+	first, ok := verifStoredHexLiteral(fwd)
+	verif.Assert(ok, "name-stored-as-hex-literal")
+	if !ok {
+		return
+	}
+	rest := fwd[strings.Index(fwd, "X'")+2:]
+	second, ok := verifStoredHexLiteral(rest[strings.Index(rest, "'")+1:])
+	verif.Assert(ok, "age-stored-as-hex-literal")
+	if !ok {
+		return
+	}
+	verif.Reach("written")
+	reader := "A"
+	if verif.Choose("reader", 0, 1) == 1 {
+		reader = "B"
+	}
+	order := verif.Choose("order", 0, 1) // 0: name, age; 1: age, name
+	r, rctx, rparser := mk(reader)
+	sel := "select name, age from t"
+	fields := []*ColumnDescription{{Name: []byte("name"), Type: base_mysql.TypeBlob}, {Name: []byte("age"), Type: base_mysql.TypeBlob}}
+	cols := [][]byte{first, second}
+	if order == 1 {
+		sel = "select age, name from t"
+		fields = []*ColumnDescription{fields[1], fields[0]}
+		cols = [][]byte{second, first}
+	}
+	if _, _, err := r.queryObserverManager.OnQuery(rctx, emysql.NewOnQueryObjectFromQuery(sel, rparser)); err != nil {
+		return
+	}
+	row := append(base_mysql.PutLengthEncodedString(cols[0]), base_mysql.PutLengthEncodedString(cols[1])...)
+	out, err := r.processTextDataRow(rctx, verifDup(row), fields)
+	verif.Reach("row-processed")
+	verif.Assert(err == nil, "row-no-error")
+	if err != nil {
+		return
+	}
+	name, age := lit, []byte("-1")
+	if reader == "B" {
+		name, age = []byte("n/a"), []byte("42")
+	}
+	want := [][]byte{name, age}
+	if order == 1 {
+		want = [][]byte{age, name}
+	}
+	verif.Assert(verif.Eq(out, append(base_mysql.PutLengthEncodedString(want[0]), base_mysql.PutLengthEncodedString(want[1])...)), "each-column-follows-its-own-policy")
+}
+
+func strPtr(s string) *string { return &s }
